@@ -266,7 +266,8 @@ def run_real(worker, payload, shards=None, timeout=3600, hashseed="0", pyargs=()
     """Run harness/<worker>.py in fresh interpreters over a list payload, split in shards.
     The worker reads a JSON list from argv[1] and writes a JSON list (same length) to argv[2]."""
     shards = shards or min(NCPU, max(1, len(payload) // 50))
-    wd = os.path.join(VERIF, ".work", "real_%d_%d" % (os.getpid(), int(time.time() * 1000) % 1000000))
+    import uuid
+    wd = os.path.join(VERIF, ".work", "real_%d_%s" % (os.getpid(), uuid.uuid4().hex[:10]))
     os.makedirs(wd, exist_ok=True)
     procs = []
     n = len(payload)
